@@ -171,12 +171,41 @@ def run(ctx):
     # an inner node may carry a label in front of its distance (`(a:1,b:2)95:0.3`): the distance is what follows the colon
     fnw = s.func("TreeNode.from_newick")
     from ..exprnorm import has_code as _hc
-    inner_blocks = [blk for x in ast.walk(fnw) for fld in ("body", "orelse") for blk in [getattr(x, fld, None)] if isinstance(blk, list)
-                    and any(isinstance(st, ast.Assign) and _hc(st, "label_and_distance = newick[subnewick_stop_i:]") for st in blk)]
+    # (the branch is the block that reads `newick[subnewick_stop_i:]`; the parsing may stand there or in a private function of the
+    # module that is handed that text)
+    def _reads_tail(n_):
+        return any(isinstance(y, ast.Subscript) and _hc(y, "newick[subnewick_stop_i:]") for y in ast.walk(n_))
+    inner_blocks = [blk for x in ast.walk(fnw) if not isinstance(x, (ast.Try, ast.ExceptHandler))
+                    for fld in ("body", "orelse") for blk in [getattr(x, fld, None)] if isinstance(blk, list)
+                    and any(not isinstance(st, (ast.If, ast.For, ast.While, ast.With)) and _reads_tail(st) for st in blk)
+                    and not any(isinstance(x, ast.Try) and any(y is blk for y in (x.body, x.orelse, x.finalbody)) for x in ast.walk(fnw))]
     ctx.need(len(inner_blocks) == 1, "the branch of from_newick that parses what follows an inner node")
-    inner_mod = ast.Module(body=list(inner_blocks[0]), type_ignores=[])
-    ctx.ob("R1.inner-node-distance", TREE, "TreeNode.from_newick", "label, distance = label_and_distance.split(':'); distance = float(distance)",
-           _hc(inner_mod, "label, distance = label_and_distance.split(':')") and _hc(inner_mod, "distance = float(distance)"),
+    blk_ = inner_blocks[0]
+
+    def _splits_at_colon(stmts_, text_names):
+        """`a, b = <text>.split(':')` followed by `b = float(b)` somewhere in the statements, <text> one of the given names"""
+        for n_ in ast.walk(ast.Module(body=list(stmts_), type_ignores=[])):
+            if isinstance(n_, ast.Assign) and isinstance(n_.targets[0], ast.Tuple) and len(n_.targets[0].elts) == 2 and isinstance(n_.value, ast.Call) \
+                    and isinstance(n_.value.func, ast.Attribute) and n_.value.func.attr == "split" \
+                    and (isinstance(n_.value.func.value, ast.Name) and n_.value.func.value.id in text_names
+                         or "<tail>" in text_names and _hc(n_.value.func.value, "newick[subnewick_stop_i:]") and isinstance(n_.value.func.value, ast.Subscript)) \
+                    and len(n_.value.args) == 1 and isinstance(n_.value.args[0], ast.Constant) \
+                    and n_.value.args[0].value == ":" and isinstance(n_.targets[0].elts[1], ast.Name):
+                d_ = n_.targets[0].elts[1].id
+                if _hc(ast.Module(body=list(stmts_), type_ignores=[]), f"{d_} = float({d_})"):
+                    return True
+        return False
+    tail_names = {st.targets[0].id for st in blk_ if isinstance(st, ast.Assign) and isinstance(st.targets[0], ast.Name) and _reads_tail(st.value)}
+    ok_inner = _splits_at_colon(blk_, tail_names | {"<tail>"})
+    for c_ in [c for st in blk_ for c in ast.walk(st) if isinstance(c, ast.Call) and isinstance(c.func, ast.Name) and c.func.id.startswith("_")
+               and c.func.id in s.funcs]:
+        hf = s.funcs[c_.func.id]
+        ps_ = [a.arg for a in hf.args.posonlyargs + hf.args.args]
+        handed = {ps_[k] for k, a in enumerate(c_.args) if k < len(ps_) and (_reads_tail(a) or isinstance(a, ast.Name) and a.id in tail_names)}
+        if handed and _splits_at_colon(hf.body, handed):
+            ok_inner = True
+    ctx.ob("R1.inner-node-distance", TREE, "TreeNode.from_newick", "label, distance = <text behind the inner node>.split(':'); distance = float(distance)",
+           ok_inner,
            "the text behind the closing parenthesis of an inner node is `label:distance`: parsing only texts that START with ':' drops the "
            "branch length of every labelled inner node", fnw.lineno)
 
